@@ -8,7 +8,9 @@ Plan(pw, cid, s, idu, ids, ksf) == [pw1 |-> A(pw), pw2 |-> A(pw), cid |-> A(cid)
 One == {NoneV}
 Ext_SetupPlan == << [op |-> "new", tape |-> 1],
                   [op |-> "withkey", tape |-> 2, key |-> 1, mode |-> "ext"],
-                  [op |-> "parts", seed |-> 1, key |-> 1, fake |-> 1, mode |-> "ext"] >>
+                  [op |-> "parts", seed |-> 1, key |-> 1, fake |-> 1, mode |-> "ext"],
+                  [op |-> "parts", seed |-> 1, key |-> 1, fake |-> 1, mode |-> "ext", xfail |-> TRUE],
+                  [op |-> "withkey", tape |-> 5, key |-> 1, mode |-> "ext", xfail |-> TRUE] >>
 Ext_RegPlan == << Plan(1, 11, 3, NoneV, NoneV, 0) >>
 Ext_CliPw   == [c \in CliIds |-> <<A(1), A(1)>>]
 Ext_SrvSetups == {1, 2, 3}
